@@ -280,7 +280,10 @@ def c02_4(ctx: Ctx) -> RuleResult:
         wt = weights_arg(ctx, f, c, 2)
         ok, why, inner = check_weights_pipeline(ctx, f, wt)
         res.add(f, c, "weights == W / W.sum() with W = where(failed_realizations, 0, weights in force)", ok, why, construct=f"{f.name}: weights pipeline (estimator)")
-        _check_sources(ctx, res, f, c, inner if inner is not None else wt, "gradients")
+        from .common import pipeline_frame
+
+        f_src, wt_src = pipeline_frame(ctx, f, wt)
+        _check_sources(ctx, res, f_src, c, inner if inner is not None else wt_src, "gradients")
         # the same weights go to the gradient estimation helpers
         s = solver(ctx)
         for call_, cs, _k in ctx.cg.all_callees(f):
